@@ -1,3 +1,4 @@
--- This module serves as the root of the `PosterModel` library.
--- Import modules here that should be built as part of the library.
-import PosterModel.Basic
+import PosterModel.Prim
+import PosterModel.Props
+import PosterModel.Tx
+import PosterModel.Rx
